@@ -405,7 +405,7 @@ def write_evidence(ctx, level, coverage, assumptions, violations):
 def distribution(lines):
     tags = collections.Counter()
     for l in lines:
-        for t in l.get("tags", []):
+        for t in (l.get("tags") or []):
             tags[t] += 1
     return dict(sorted(tags.items()))
 
